@@ -68,7 +68,8 @@ class Trees(Part):
     chunk = 200
 
     def strategy(self, tier):
-        return st.builds(lambda t, w, e: {"tree": t, "w": w, "enc": e}, GT.node(0, "free"), width_choice(), st.sampled_from(ENCODINGS))
+        return st.builds(lambda t, w, e, via, failed: {"tree": t, "w": w, "enc": e, "via": via, "failed_before": failed}, GT.node(0, "free"), width_choice(), st.sampled_from(ENCODINGS),
+                         st.sampled_from(["console", "console", "options", "print-width"]), st.sampled_from([False, False, True]))
 
     def check(self, spec, ctx):
         from ..oracles import sgr as SGR
@@ -77,7 +78,17 @@ class Trees(Part):
         W, m = resolve_width(spec)
         r = sut(GT.build, tree)
         enc = spec.get("enc")
-        con, lines = render_lines(r, W, encoding=enc)
+        via = spec.get("via", "console")
+        if via == "console":
+            con, lines = render_lines(r, W, encoding=enc)
+        else:
+            # the W cells are not the console's own width: they are given through the render options / print(width=W) on a wider console
+            from rich.console import Console
+
+            con = sut(Console, file=EncFile(enc) if enc else io.StringIO(), width=W + 37, height=25, color_system="truecolor", force_terminal=True, legacy_windows=False, _environ={})
+            segs = sut(lambda: list(con.render(r, con.options.update(width=W))))
+            lines = "".join(s.text for s in segs if not s.is_control).split("\n")
+            ctx.cls("width-via-" + via)
         if enc:
             ctx.cls("encoding-" + enc)
         depth = GT.depth_of(tree)
@@ -95,7 +106,29 @@ class Trees(Part):
                 return
         # what print() writes (after the console's own post-processing of the rendered text) obeys the same bound
         r2 = sut(GT.build, tree)
-        sut(con.print, r2)
+        if spec.get("failed_before"):
+            # history: an earlier print on this console failed half-way (its renderable raised after producing the start of a line) and the program went on
+            from rich.console import RenderGroup
+            from rich.text import Text
+
+            class _Fails:
+                def __rich_console__(self, console, options):
+                    yield Text("Loading report: ", end="")
+                    raise RuntimeError("renderable failed")
+
+            try:
+                con.print(_Fails(), crop=False)
+            except RuntimeError:
+                pass
+            except Exception as e:  # noqa
+                from ..core import SutError
+
+                raise SutError(e)
+            ctx.cls("after-a-failed-print")
+        if via == "console":
+            sut(con.print, r2)
+        else:
+            sut(con.print, r2, width=W)
         written = SGR.visible(con.file.getvalue())
         for i, ln in enumerate(written.split("\n")):
             w = OC.width(ln)
